@@ -7,6 +7,7 @@ peers in the order they are tried, i.e. for every permutation `rand.Perm` can pr
 import Drand.Beacon.Sync
 import DrandProofs.C02
 import Gen.Sync
+import Gen.CheckPast
 import Gen.Consts
 
 namespace Drand.Beacon.Sync
@@ -1318,30 +1319,88 @@ theorem lookup_foldr_put (ws : List Write) (base : BoltState) (r : Nat) :
       simp only [h, h', decide_false, if_false]
       exact ih
 
-/-- **c10_check_exact.** `CheckPastBeacons upTo` reports, in ascending order, exactly the rounds `1 ≤ r ≤ min upTo head`
-whose stored beacon cannot be read back or does not verify (the store labels what it returns with the round asked
-for — C18). -/
-theorem c10_check_exact (verify : Beacon → Bool) (get : Nat → Option Beacon) (lastRound upTo : Nat)
-    (hround : ∀ r b, get r = some b → b.round = r) :
-    checkPast verify get lastRound upTo =
-      (List.range' 1 (min upTo lastRound)).filter (fun r => match get r with | none => true | some b => !verify b) := by
-  have key : ∀ k i, checkLoop verify get i k =
-      (List.range' i k).filter (fun r => match get r with | none => true | some b => !verify b) := by
-    intro k
-    induction k with
-    | zero => intro i; rfl
-    | succ k ih =>
-      intro i
-      rw [checkLoop, ih, List.range'_succ, List.filter_cons]
-      cases hg : get i with
-      | none => simp
-      | some b =>
-        have := hround i b hg
-        cases hv : verify b <;> simp [this, hv]
+/-- the predicate "the stored beacon of round `r` cannot be read back, or is not a beacon of round `r`, or does not
+verify" -/
+def faultyAt (verify : Beacon → Bool) (get : Nat → GetRes) (r : Nat) : Bool :=
+  match get r with
+  | .ok b => decide (b.round ≠ r) || !verify b
+  | .notStored => true
+  | .otherErr => true
+
+private theorem checkLoop_filter (lc : Bool) (verify : Beacon → Bool) (get : Nat → GetRes)
+    (hround : ∀ r b, get r = .ok b → lc = true ∨ b.round = r) :
+    ∀ k i, checkLoop lc verify get i k = (List.range' i k).filter (faultyAt verify get) := by
+  intro k
+  induction k with
+  | zero => intro i; rfl
+  | succ k ih =>
+    intro i
+    rw [checkLoop, ih, List.range'_succ, List.filter_cons]
+    unfold faultyAt
+    cases hg : get i with
+    | notStored => simp
+    | otherErr => simp
+    | ok b =>
+      by_cases hb : b.round = i
+      · cases hv : verify b <;> simp [hb, hv]
+      · rcases hround i b hg with hl | he
+        · subst hl; simp [hb]
+        · exact absurd he hb
+
+/-- **c10_check_exact** (corrected variant `labelCheck`: the loop compares the round of the beacon it read with the round it
+asked for). For *every* behaviour of the store's `Get` — a beacon, `ErrNoBeaconStored`, or any other error —
+`CheckPastBeacons upTo` reports, in ascending order, exactly the rounds `1 ≤ r ≤ min upTo head` whose stored beacon cannot
+be read back (missing *or* undecodable), is not a beacon of round `r`, or does not verify. No hypothesis on the store. -/
+theorem c10_check_exact (verify : Beacon → Bool) (get : Nat → GetRes) (lastRound upTo : Nat) :
+    checkPast true verify get lastRound upTo = (List.range' 1 (min upTo lastRound)).filter (faultyAt verify get) := by
   unfold checkPast
-  rw [key]
+  rw [checkLoop_filter true verify get (fun _ _ _ => Or.inl rfl)]
   congr 2
   split <;> omega
+
+/-
+Full statement wanted for the as-is code: the same. It does not hold: the as-is loop never compares `b.Round` with `i`; a
+record stored under round `i` that decodes to a beacon of another round `j` (one damaged digit of `"round":…` in the JSON
+value of the untrimmed bolt format) is reported under `j` when it does not verify — the repair then re-fetches round `j` and
+leaves round `i` as it is, for ever — and is not reported at all when it is a verifying beacon of round `j`
+(`c10_check_label_counterexample`). What remains true needs the store to label what it returns with the round asked for,
+which C18 proves for every store that was only written through `Put` (`c18_bolt_get_label`, `c18_trimmed_read_sound`):
+-/
+/-- **c10_check_exact_partial** (as-is code), all three outcomes of `Get`, under label soundness of the store. -/
+theorem c10_check_exact_partial (verify : Beacon → Bool) (get : Nat → GetRes) (lastRound upTo : Nat)
+    (hround : ∀ r b, get r = .ok b → b.round = r) :
+    checkPast false verify get lastRound upTo = (List.range' 1 (min upTo lastRound)).filter (faultyAt verify get) := by
+  unfold checkPast
+  rw [checkLoop_filter false verify get (fun r b h => Or.inr (hround r b h))]
+  congr 2
+  split <;> omega
+
+/-- under label soundness the two variants report the same rounds -/
+theorem c10_check_variants_agree (verify : Beacon → Bool) (get : Nat → GetRes) (lastRound upTo : Nat)
+    (hround : ∀ r b, get r = .ok b → b.round = r) :
+    checkPast false verify get lastRound upTo = checkPast true verify get lastRound upTo := by
+  rw [c10_check_exact, c10_check_exact_partial _ _ _ _ hround]
+
+/-- **c10_check_label_counterexample** (as-is code; replayed on the real code, corpus/C10/check_mislabelled_record.json).
+Head 9, every round holds its true beacon, except that the record of round 3 carries round 7: (a) with round 3's signature
+it does not verify as round 7 and the as-is check reports `[7]` — not 3; (b) as a copy of round 7's true beacon it verifies
+and the as-is check reports nothing. The corrected check reports `[3]` in both cases. -/
+theorem c10_check_label_counterexample :
+    let getA : Nat → GetRes := fun r => if r = 3 then .ok ⟨7, [1, 3], []⟩ else .ok ⟨r, [1, UInt8.ofNat r], []⟩
+    let getB : Nat → GetRes := fun r => if r = 3 then .ok ⟨7, [1, 7], []⟩ else .ok ⟨r, [1, UInt8.ofNat r], []⟩
+    checkPast false cxVerify getA 9 9 = [7] ∧ checkPast false cxVerify getB 9 9 = [] ∧
+    checkPast true cxVerify getA 9 9 = [3] ∧ checkPast true cxVerify getB 9 9 = [3] := by
+  decide
+
+/-- **tie_check_every_get_error_faulty**: regenerated from `CheckPastBeacons` — the first statement after
+`b, err := s.store.Get(ctx, i)` is `if err != nil { faultyBeacons = append(faultyBeacons, i); …; continue }`, nothing in the
+loop returns on a read error or looks at the kind of error (the model's `notStored` and `otherErr` arms are the same), a
+beacon that does not verify is reported under the round it carries, and the as-is loop has no label comparison. -/
+theorem tie_check_every_get_error_faulty :
+    Gen.checkPastEveryGetErrorFaulty = true ∧ Gen.checkPastLabelChecked = false ∧
+    Gen.checkPastSteps = ["err!=nil => faulty:i,[i>=upTo]break,continue",
+      "err=s.scheme.VerifyBeacon(b,s.info.PublicKey);err!=nil => faulty:b.Round",
+      "i%commonutils.LogsToSkip==0 => ", "i>=upTo => break"] := by decide
 
 /-! #### CorrectPastBeacons -/
 
@@ -1509,6 +1568,237 @@ theorem c10_correct_counterexample :
     let r := correctPast (cxCfg .participant) "self" (fun _ => ([cxBeyond, cxHonest 9], [cxBeyond, cxHonest 9])) cxNode3 [2]
     r.2.1 = .ok ∧ cxNode3.st.base.map (·.1) = [0, 1, 2, 3] ∧ r.1.st.base.map (·.1) = [0, 1, 2, 3, 9] ∧
       lookup 9 cxNode3.st.base = none ∧ (lookup 9 r.1.st.base).isSome = true := by
+  decide
+
+/-! #### check, then repair -/
+
+/-- `Get` of a store holding `base`, for a decoder that reads `readable` records back -/
+def storeGet (readable : Beacon → Bool) (base : BoltState) (r : Nat) : GetRes :=
+  match lookup r base with
+  | none => .notStored
+  | some b => if readable b then .ok b else .otherErr
+
+private theorem lookup_mem' {α : Type} {k : Nat} {v : α} {l : List (Nat × α)} (h : lookup k l = some v) : (k, v) ∈ l := by
+  induction l with
+  | nil => simp [lookup] at h
+  | cons a t ih =>
+    obtain ⟨k', v'⟩ := a
+    unfold lookup at h
+    split at h
+    · cases h; subst_vars; exact List.mem_cons_self
+    · exact List.mem_cons_of_mem _ (ih h)
+
+private theorem storeGet_label (readable : Beacon → Bool) (base : BoltState) (h : BoltInv base) :
+    ∀ r b, storeGet readable base r = .ok b → b.round = r := by
+  intro r b hg
+  unfold storeGet at hg
+  split at hg
+  · cases hg
+  · next b' hb' =>
+    split at hg
+    · cases hg; exact h.2 _ (lookup_mem' hb')
+    · cases hg
+
+private theorem mem_insert' {α : Type} {k : Nat} {v : α} {l : List (Nat × α)} {p : Nat × α} (h : p ∈ Store.insert k v l) : p = (k, v) ∨ p ∈ l := by
+  induction l with
+  | nil => simp [Store.insert] at h; exact Or.inl h
+  | cons a t ih =>
+    obtain ⟨k', v'⟩ := a
+    unfold Store.insert at h
+    split at h
+    · rcases List.mem_cons.1 h with rfl | h
+      · exact Or.inl rfl
+      · exact Or.inr h
+    · split at h
+      · rcases List.mem_cons.1 h with rfl | h
+        · exact Or.inl rfl
+        · exact Or.inr (List.mem_cons_of_mem _ h)
+      · rcases List.mem_cons.1 h with rfl | h
+        · exact Or.inr List.mem_cons_self
+        · rcases ih h with e | m
+          · exact Or.inl e
+          · exact Or.inr (List.mem_cons_of_mem _ m)
+
+private theorem boltInv_put {s : BoltState} (h : BoltInv s) (b : Beacon) : BoltInv (Bolt.put s b) := by
+  refine ⟨c18_insert_sorted _ _ _ h.1, ?_⟩
+  intro p hp
+  rcases mem_insert' hp with rfl | hp
+  · rfl
+  · exact h.2 p hp
+
+private theorem boltInv_foldr (ws : List Write) {s : BoltState} (h : BoltInv s) :
+    BoltInv (ws.foldr (fun w acc => Bolt.put acc w.stored) s) := by
+  induction ws with
+  | nil => exact h
+  | cons w ws ih => exact boltInv_put ih _
+
+/-- in a sorted map the key of the last entry is the largest key, and every stored key reads back -/
+private theorem head_max {base : BoltState} (hi : BoltInv base) {k : Nat} {v : Beacon} (hl : lookup k base = some v) :
+    k ≤ (Stack.last base).round := by
+  have hm := lookup_mem' hl
+  cases hg : base.getLast? with
+  | none => rw [List.getLast?_eq_none_iff.1 hg] at hm; cases hm
+  | some kv =>
+    obtain ⟨k', v'⟩ := kv
+    have := c18_last_is_max base hi.1 k' v' hg (k, v) hm
+    have hr : v'.round = k' := hi.2 _ (List.mem_of_getLast? hg)
+    unfold Stack.last
+    rw [hg]
+    simp only
+    omega
+
+private theorem head_stored {base : BoltState} (hi : BoltInv base) (hn : base ≠ []) :
+    ∃ v, lookup (Stack.last base).round base = some v := by
+  cases hg : base.getLast? with
+  | none => exact absurd (List.getLast?_eq_none_iff.1 hg) hn
+  | some kv =>
+    obtain ⟨k', v'⟩ := kv
+    have hm : (k', v') ∈ base := List.mem_of_getLast? hg
+    have hr : v'.round = k' := hi.2 _ hm
+    unfold Stack.last
+    rw [hg]
+    simp only
+    rw [hr]
+    -- a member of a sorted list is found by lookup
+    have key : ∀ (l : List (Nat × Beacon)), Sorted l → (k', v') ∈ l → ∃ v, lookup k' l = some v := by
+      intro l
+      induction l with
+      | nil => intro _ h; cases h
+      | cons a t ih =>
+        obtain ⟨ka, va⟩ := a
+        intro hs hmem
+        unfold lookup
+        split
+        · exact ⟨_, rfl⟩
+        · next hne =>
+          rcases List.mem_cons.1 hmem with e | hmem
+          · cases e; exact absurd rfl hne
+          · have hst : Sorted t := by
+              cases t with
+              | nil => trivial
+              | cons b t => obtain ⟨kb, vb⟩ := b; exact hs.2
+            exact ih hst hmem
+    exact key base hi.1 hm
+
+/-- writes of rounds that are at most the head, into a store that keeps every other round, keep the head -/
+private theorem head_kept {base base' : BoltState} (hi : BoltInv base) (hi' : BoltInv base') (hn : base ≠ [])
+    (fb : List Nat) (hfb : ∀ x ∈ fb, x ≤ (Stack.last base).round)
+    (hin : ∀ x ∈ fb, ∃ b, lookup x base' = some b)
+    (hout : ∀ x, x ∉ fb → lookup x base' = lookup x base) :
+    (Stack.last base').round = (Stack.last base).round := by
+  obtain ⟨v, hv⟩ := head_stored hi hn
+  have hsome : ∃ v', lookup (Stack.last base).round base' = some v' := by
+    by_cases hx : (Stack.last base).round ∈ fb
+    · exact hin _ hx
+    · exact ⟨v, by rw [hout _ hx, hv]⟩
+  obtain ⟨v', hv'⟩ := hsome
+  have h1 : (Stack.last base).round ≤ (Stack.last base').round := head_max hi' hv'
+  have hn' : base' ≠ [] := by
+    intro e; rw [e] at hv'; simp [lookup] at hv'
+  obtain ⟨w, hw⟩ := head_stored hi' hn'
+  have h2 : (Stack.last base').round ≤ (Stack.last base).round := by
+    by_cases hx : (Stack.last base').round ∈ fb
+    · exact hfb _ hx
+    · rw [hout _ hx] at hw
+      exact head_max hi hw
+  omega
+
+/-- **c10_check_then_correct** (corrected variant `rangeCheck`; either variant of the label check — a store that was only
+written through `Put` labels soundly, so they agree). The two halves compose: take a store `base` (well-formed: `BoltInv`,
+C18) some of whose records are missing, undecodable (`readable b = false`: `Get` answers an error that is not
+ErrNoBeaconStored) or do not verify; `fb := CheckPastBeacons upTo`; `CorrectPastBeacons fb` with every faulty round held by
+an honest peer that is reached. Then the repair reports success, changes no round outside `fb`, every round of `fb` now holds
+a verifying beacon of that round, the head is unchanged, and a second `CheckPastBeacons upTo` reports nothing. -/
+theorem c10_check_then_correct (cfg : Cfg) (hrg : cfg.rangeCheck = true) (chain : Nat → Beacon) (self : String)
+    (hround : ∀ r, (chain r).round = r) (hcomp : ∀ r, 1 ≤ r → cfg.verify (chain r) = true)
+    (hle : ∀ b, cfg.lastErr b = false) (H : Nat) (env : Nat → List Peer × List Peer)
+    (henv : ∀ i, RepairOK chain self H (env i)) (readable : Beacon → Bool)
+    (hrd : ∀ b, cfg.verify b = true → readable b = true)
+    (lc : Bool) (n : Node) (hinv : BoltInv n.st.base) (hne : n.st.base ≠ []) (hH : n.head ≤ H) (upTo : Nat) :
+    let fb := checkPast lc cfg.verify (storeGet readable n.st.base) n.head upTo
+    let r := correctPast cfg self env n fb
+    r.2.1 = .ok ∧
+    (∀ x, x ∉ fb → lookup x r.1.st.base = lookup x n.st.base) ∧
+    (∀ x, x ∈ fb → ∃ b, lookup x r.1.st.base = some b ∧ cfg.verify b = true ∧ b.round = x) ∧
+    r.1.head = n.head ∧
+    checkPast lc cfg.verify (storeGet readable r.1.st.base) r.1.head upTo = [] := by
+  intro fb r
+  have hlab := storeGet_label readable n.st.base hinv
+  have hfbeq : fb = (List.range' 1 (min upTo n.head)).filter (faultyAt cfg.verify (storeGet readable n.st.base)) := by
+    cases lc
+    · exact c10_check_exact_partial _ _ _ _ hlab
+    · exact c10_check_exact _ _ _ _
+  have hfbr : ∀ x ∈ fb, 1 ≤ x ∧ x ≤ n.head := by
+    intro x hx
+    rw [hfbeq] at hx
+    have := (List.mem_filter.1 hx).1
+    rw [List.mem_range'_1] at this
+    omega
+  have hfb : ∀ x ∈ fb, 1 ≤ x ∧ x ≤ H := fun x hx => ⟨(hfbr x hx).1, by have := (hfbr x hx).2; omega⟩
+  obtain ⟨hok, hrep, hother⟩ := c10_correct_exact cfg hrg chain self hround hcomp hle H env henv n fb hfb
+  -- the repaired store is still a well-formed map, with the same head
+  have hraw := correctLoop_ind (cfg := cfg) (self := self) (env := env) (P := fun _ m => RawWrites cfg n m) fb
+    (fun x _ _ => rawWrites_inv cfg x x n) 0 false n 0 ⟨[], rfl, rfl, fun _ h => by cases h⟩
+  obtain ⟨ws, _, hbase, _⟩ := hraw
+  have hinv' : BoltInv r.1.st.base := by
+    show BoltInv (correctPast cfg self env n fb).1.st.base
+    unfold correctPast
+    rw [hbase]
+    exact boltInv_foldr ws hinv
+  have hhead : r.1.head = n.head :=
+    head_kept hinv hinv' hne fb (fun x hx => (hfbr x hx).2)
+      (fun x hx => let ⟨b, hb, _⟩ := hrep x hx; ⟨b, hb⟩) hother
+  refine ⟨hok, hother, hrep, hhead, ?_⟩
+  rw [hhead]
+  -- the second check: label soundness of the repaired store
+  have hlab' : ∀ x b, storeGet readable r.1.st.base x = .ok b → b.round = x := by
+    intro x b hg
+    by_cases hx : x ∈ fb
+    · obtain ⟨b', hb', _, hbr⟩ := hrep x hx
+      unfold storeGet at hg
+      rw [hb'] at hg
+      simp only at hg
+      split at hg
+      · cases hg; exact hbr
+      · cases hg
+    · have : storeGet readable r.1.st.base x = storeGet readable n.st.base x := by
+        unfold storeGet; rw [hother x hx]
+      rw [this] at hg
+      exact hlab x b hg
+  have hsecond : checkPast lc cfg.verify (storeGet readable r.1.st.base) n.head upTo =
+      (List.range' 1 (min upTo n.head)).filter (faultyAt cfg.verify (storeGet readable r.1.st.base)) := by
+    cases lc
+    · exact c10_check_exact_partial _ _ _ _ hlab'
+    · exact c10_check_exact _ _ _ _
+  rw [hsecond, List.filter_eq_nil_iff]
+  intro x hx
+  by_cases hxf : x ∈ fb
+  · obtain ⟨b', hb', hv, hbr⟩ := hrep x hxf
+    unfold faultyAt storeGet
+    rw [hb']
+    simp [hrd b' hv, hv, hbr]
+  · have hnf : ¬ faultyAt cfg.verify (storeGet readable n.st.base) x = true := by
+      intro hf
+      apply hxf
+      rw [hfbeq]
+      exact List.mem_filter.2 ⟨hx, hf⟩
+    have : storeGet readable r.1.st.base x = storeGet readable n.st.base x := by
+      unfold storeGet; rw [hother x hxf]
+    unfold faultyAt at hnf ⊢
+    rw [this]
+    exact hnf
+
+
+/-- non-vacuity of `c10_check_then_correct`: rounds 0..5, round 2 deleted, round 3 torn (`[4,3]`, unreadable), round 4 holding
+a corrupted signature; the check reports [2, 3, 4]; an honest peer repairs them; the second check is clean -/
+example :
+    let base : BoltState := [(0, ⟨0, [0, 0], []⟩), (1, ⟨1, [1, 1], []⟩), (3, ⟨3, [4, 3], []⟩), (4, ⟨4, [2, 4], []⟩), (5, ⟨5, [1, 5], []⟩)]
+    let rd : Beacon → Bool := fun b => !(b.sig == [4, UInt8.ofNat b.round])
+    let n : Node := ⟨Stack.build false base, [], []⟩
+    let cfg := { cxCfg .participant with rangeCheck := true }
+    let fb := checkPast false cfg.verify (storeGet rd n.st.base) n.head 9
+    let r := correctPast cfg "self" (fun _ => ([cxHonest 9], [])) n fb
+    fb = [2, 3, 4] ∧ r.2.1 = .ok ∧ checkPast false cfg.verify (storeGet rd r.1.st.base) r.1.head 9 = [] := by
   decide
 
 /-! ### the follow loop -/
@@ -1702,8 +1992,9 @@ example : (sync idCfg "self" 0 3 false idNode ([exBad, exForeign] ++ idHonest ::
         · simp only [exBad, Resp.stream.injEq] at hs; subst hs; simp
         · simp only [exForeign, Resp.stream.injEq] at hs; subst hs; simp)
   exact ⟨h.1, h.2.1⟩
--- c10_check_exact: rounds 2 (missing) and 4 (does not verify) of a store with head 5
-example : checkPast cxVerify (fun r => if r = 2 then none else if r = 4 then some ⟨4, [2, 4], []⟩ else some ⟨r, [1, UInt8.ofNat r], []⟩) 5 9 = [2, 4] := by
+-- c10_check_exact(_partial): rounds 2 (missing), 3 (undecodable) and 4 (does not verify) of a store with head 5
+example : checkPast true cxVerify (fun r => if r = 2 then .notStored else if r = 3 then .otherErr else if r = 4 then .ok ⟨4, [2, 4], []⟩ else .ok ⟨r, [1, UInt8.ofNat r], []⟩) 5 9 = [2, 3, 4] ∧
+    checkPast false cxVerify (fun r => if r = 2 then .notStored else if r = 3 then .otherErr else if r = 4 then .ok ⟨4, [2, 4], []⟩ else .ok ⟨r, [1, UInt8.ofNat r], []⟩) 5 9 = [2, 3, 4] := by
   decide
 -- c10_resync_retry / c10_correct_exact: first attempt fails transiently, the retry is served
 example : (correctPast { cxCfg .participant with rangeCheck := true } "self" (fun _ => ([cxCloser], [cxHonest 9])) cxNode3 [2, 3]).2.1 = .ok := by
